@@ -121,10 +121,22 @@ func VerifC13LoadSetup() {
 
 // Loading files: the reader goroutine and the converter goroutine of readRecordSet (CSV, LTSV) and
 // of the JSON Lines loader, under the race monitor, for a well-formed file and for one whose third
-// line is malformed (the error path).
+// line is malformed (the error path), and for a file of 302 records (the buffers are re-sized at the 301st).
 func VerifC13FileLoad() {
-	bad := verifChoice("malformed", 2) == 1
-	if bad {
+	shape := verifChoice("malformed", 3)
+	bad := shape == 1
+	if shape == 2 {
+		// 302 records: the loaders re-size their buffers when the 301st arrives, from the bytes read so far
+		csv, ltsv, jsonl := "a,b\n", "", ""
+		for i := 0; i < 302; i++ {
+			csv += "1,2\n"
+			ltsv += "a:1\tb:2\n"
+			jsonl += "{\"a\":1}\n"
+		}
+		verifFileWrite("f.csv", csv)
+		verifFileWrite("g.ltsv", ltsv)
+		verifFileWrite("h.jsonl", jsonl)
+	} else if bad {
 		verifFileWrite("f.csv", "a,b\n1,2\n3\n4,5\n")
 		verifFileWrite("g.ltsv", "a:1\tb:2\nnocolon\n")
 		verifFileWrite("h.jsonl", "{\"a\":1}\n{\"a\":\n")
